@@ -185,3 +185,57 @@ def shrink(case, candidates, test, budget_evals: int = 300, deadline: float | No
                 improved = True
                 break
     return cur, evals
+
+
+# ----------------------------------------------------------------- reach of the anchored code
+def mark_cover(jobs: list, every: int = 25, at_least: int = 8) -> int:
+    """Ask for the reach probe on a deterministic sample of the jobs."""
+    n = 0
+    step = max(1, min(every, len(jobs) // max(1, at_least)))
+    for i, j in enumerate(jobs):
+        if i % step == 0:
+            j["cover"] = True
+            n += 1
+    return n
+
+
+def reach_report(prop: str, hits: set, src_root: str | None = None) -> dict:
+    """Per anchored file of the property: executable lines, lines the sampled workload executed, functions never entered."""
+    src_root = src_root or os.environ.get("VERIF_SRC_ROOT", "/repo/src")
+    files = []
+    with open(os.path.join(VERIF_DIR, "properties.jsonl"), encoding="utf-8") as f:
+        for line in f:
+            p = json.loads(line)
+            if p["id"] == prop:
+                files = [x for x in p["anchors"]["files"] if x.endswith(".py")]
+    by_file: dict = {}
+    for h in hits:
+        rel, _, ln = h.rpartition(":")
+        by_file.setdefault(rel, set()).add(int(ln))
+    out = []
+    for rel in files:
+        short = rel.split("src/decaylanguage/", 1)[-1]
+        path = os.path.join(src_root, "decaylanguage", short)
+        try:
+            with open(path, encoding="utf-8") as f:
+                code = compile(f.read(), path, "exec")
+        except Exception as e:  # noqa: BLE001
+            out.append({"file": short, "error": str(e)})
+            continue
+        funcs = []
+
+        def walk(co, qual):
+            lines = {ln for _, _, ln in co.co_lines() if ln is not None and ln != co.co_firstlineno}
+            if co.co_flags & 0x2:  # CO_NEWLOCALS: a function body (module and class bodies run at import, before any job)
+                funcs.append((qual, co.co_firstlineno, lines))
+            for c in co.co_consts:
+                if hasattr(c, "co_lines"):
+                    walk(c, (qual + "." if qual else "") + c.co_name)
+
+        walk(code, "")
+        got = by_file.get(short, set())
+        exe = set().union(*[ls for _, _, ls in funcs]) if funcs else set()
+        never = sorted(q for q, first, ls in funcs if q and ls and not (ls & got) and "<" not in q.split(".")[-1])
+        out.append({"file": short, "executable_lines": len(exe), "lines_executed_by_sampled_runs": len(exe & got),
+                    "functions_never_entered": never})
+    return {"sampled_by": "sys.monitoring LINE events in a deterministic sample of the runs", "files": out}
